@@ -128,6 +128,53 @@ def _scalar_vs_ref(ctx, tag, obj, T, terms, with_G=True):
     return cps, hs, ss
 
 
+def _helpers(ctx, tag, fns, a, Ts, termf, form, **kw):
+    """module-level evaluators (fns = (Cp, H, S[, G])) on a coefficient vector against the reference terms; `form` is the
+    documented form of T: 'scalar' (NASA helpers: "T : float") or 'iterable' (Shomate helpers: "T : iterable")"""
+    eps = 1e-12
+    if form == 'iterable':
+        arr = np.array(Ts, dtype=float)
+        whole = [np.ravel(np.asarray(f(a=np.array(a), T=arr, **kw), dtype=float)) for f in fns]
+    for i, T in enumerate(Ts):
+        terms = termf(T)
+        ref3 = [ref.tsum(t_) for t_ in terms]
+        vals = [r_[0] for r_ in ref3] + [ref3[1][0] - ref3[2][0]]
+        scs = [r_[1] for r_ in ref3] + [ref3[1][1] + ref3[2][1]]
+        for k, f in enumerate(fns):
+            if form == 'scalar':
+                one = float(np.ravel(f(a=np.array(a), T=T, **kw))[0])
+                ctx.close('%s/helper:%s' % (tag, f.__name__), one, vals[k], rtol=eps, atol=eps * scs[k], detail='T=%r %r' % (T, kw))
+            elif whole[k].shape == (len(Ts),):
+                ctx.close('%s/helper:%s' % (tag, f.__name__), whole[k][i], vals[k], rtol=eps, atol=eps * scs[k],
+                          detail='T=%r in %r %r' % (T, Ts, kw))
+            elif i == 0:
+                ctx.fail('%s/helper-shape:%s' % (tag, f.__name__), 'len(T)=%d shape %r' % (len(Ts), whole[k].shape))
+
+
+def _int_temperatures(ctx, tag, obj, lo, hi, getters=('get_CpoR', 'get_HoRT', 'get_SoR', 'get_GoRT')):
+    """whole-number temperatures given as Python ints / an integer array mean the same as the floats"""
+    a, b = int(math.ceil(lo)) + 1, int(math.floor(hi)) - 1
+    if b - a < 3:
+        return
+    Ti = [a + (b - a) // 3, a + 2 * (b - a) // 3, b]
+    for g in getters:
+        f = getattr(obj, g)
+        want = np.array([float(np.ravel(f(T=float(t)))[0]) for t in Ti])
+        for how, arg in (('list-of-int', list(Ti)), ('int-array', np.array(Ti, dtype=np.int64))):
+            try:
+                got = np.ravel(np.asarray(f(T=arg), dtype=float))
+            except Exception as e:
+                from vf.core import exc_site
+                if exc_site(e) is None:
+                    raise
+                ctx.fail('%s/int-temperatures-raise:%s:%s' % (tag, g, type(e).__name__), '%s T=%r: %s' % (how, Ti, e))
+                continue
+            ctx.close('%s/int-temperatures:%s' % (tag, g), got, want, rtol=1e-13, atol=1e-13 * (1 + float(np.max(np.abs(want)))),
+                      detail='%s T=%r' % (how, Ti))
+        one = float(np.ravel(f(T=int(Ti[0])))[0])
+        ctx.close('%s/int-temperatures:%s' % (tag, g), one, want[0], rtol=1e-13, atol=1e-13 * (1 + abs(want[0])), detail='int scalar')
+
+
 def _derivatives(ctx, tag, obj, T, lo, hi, scales):
     """d(T*H/RT)/dT = Cp/R and T dS/dT = Cp/R strictly inside (lo, hi)."""
     room = min(T - lo, hi - T)
@@ -204,6 +251,11 @@ def check_nasa7(case, ctx):
         lo, hi = (Tm, case['T_high']) if T >= Tm else (case['T_low'], Tm)
         _derivatives(ctx, 'C02.nasa7', obj, T, lo, hi, scales)
     _array_clause(ctx, 'C02.nasa7', obj, case['T'], case['as'], allsc, pristine=pristine)
+    from pmutt.empirical import nasa as _n
+    fns = (_n.get_nasa_CpoR, _n.get_nasa_HoRT, _n.get_nasa_SoR)
+    for a_ in (case['a_low'], case['a_high']):
+        _helpers(ctx, 'C02.nasa7', fns, a_, list(case['T']), lambda T_, a_=a_: ref.nasa7_terms(a_, T_), 'scalar')
+    _int_temperatures(ctx, 'C02.nasa7', obj, case['T_low'], case['T_high'])
 
 
 def check_nasa9(case, ctx):
@@ -254,6 +306,11 @@ def check_nasa9(case, ctx):
     except Exception:
         pass   # an array-path crash is reported by the array clause below
     _array_clause(ctx, 'C02.nasa9', obj, case['T'], case['as'], allsc, pristine=pristine)
+    from pmutt.empirical import nasa as _n
+    fns = (_n.get_nasa9_CpoR, _n.get_nasa9_HoRT, _n.get_nasa9_SoR)
+    for a_ in case['a'][:2]:
+        _helpers(ctx, 'C02.nasa9', fns, a_, list(case['T']), lambda T_, a_=a_: ref.nasa9_terms(a_, T_), 'scalar')
+    _int_temperatures(ctx, 'C02.nasa9', obj, pts[0], pts[-1])
     # a single segment on its own
     s0 = segs[0]
     Ts = [t for t in case['T'] if pts[0] <= t <= pts[1]] or [0.5 * (pts[0] + pts[1])]
@@ -277,6 +334,10 @@ def check_shomate(case, ctx):
         # one polynomial over the whole range: derivative identities hold everywhere (extrapolation included)
         _derivatives(ctx, 'C02.shomate', obj, T, 0.5 * case['T_low'], 2 * case['T_high'], scales)
     _array_clause(ctx, 'C02.shomate', obj, case['T'], case['as'], allsc)
+    from pmutt.empirical import shomate as _s
+    fns = (_s.get_shomate_CpoR, _s.get_shomate_HoRT, _s.get_shomate_SoR, _s.get_shomate_GoRT)
+    _helpers(ctx, 'C02.shomate', fns, case['a'], list(case['T']), lambda T_: ref.shomate_terms(case['a'], T_, Ru), 'iterable', units=case['units'])
+    _int_temperatures(ctx, 'C02.shomate', obj, case['T_low'], case['T_high'])
 
 
 WATER = {'T_low': 200., 'T_mid': 1610.97, 'T_high': 3500.,
